@@ -675,4 +675,17 @@ def run(prog, ctx):
             if len(roles) != 1:
                 ctx.inconclusive("M6", "%s: source of a copied entry" % h.name, c.where, "roots %s" % sorted(roots))
     if n6 == 0:
-        ctx.fail("M6", "on a key match the override's value is stored", m.where, "no helper replaces the value of a matching key", key="override-missing")
+        # is there a value store at all that the rule could not attribute (written through a walking pointer, say)?
+        unknown6 = []
+        for fn6 in prog.lib_functions(with_helpers=True):
+            if fn6.name not in ("merge_existing_groups", "add_new_groups", "econf_mergeFiles") and not getattr(fn6, "is_inlined_helper", False):
+                continue
+            for l6, r6, s6, k6 in query.stores(fn6):
+                l0 = l6.strip()
+                if l0.k == "MemberExpr" and l0.j.get("member") == "value" and l0.j.get("rec") == "file_entry" and r6 is not None and not r6.is_null_const():
+                    unknown6.append(s6)
+        if unknown6:
+            ctx.inconclusive("M6", "on a key match the override's value is stored", unknown6[0].where,
+                             "`%s`: a value is stored in a form the rule cannot attribute to base or override" % render(unknown6[0])[:70])
+        else:
+            ctx.fail("M6", "on a key match the override's value is stored", m.where, "no helper replaces the value of a matching key", key="override-missing")
